@@ -4,7 +4,7 @@
 (*  Faithful model of the validator machinery of ar-go-tools (C02):       *)
 (*    analysis/dataflow/path.go      FindPathBetweenBlocks (stack search, *)
 (*                                   first path found), BlockTree.        *)
-(*                                   PathToLeaf (duplicates the last      *)
+(*                                   PathToLeaf,                          *)
 (*                                   block), SimplePathCondition,         *)
 (*                                   isValuePredicateTo, AsPredicateTo    *)
 (*    analysis/lang/values.go        ValuesWithSameData, MatchNilCheck,   *)
@@ -130,13 +130,9 @@ Definition tnode := list nat.
 
 Inductive presult := Found (raw : list nat) | NoPath | OutOfFuel.
 
-(* BlockTree.PathToLeaf + ToBlocks: root ... leaf, and the leaf block is emitted twice
-   (p starts as [t.Block] and the loop starts again at leaf = t). *)
-Definition path_to_leaf (t : tnode) : list nat :=
-  match t with
-  | [] => []
-  | b :: _ => rev t ++ [b]
-  end.
+(* BlockTree.PathToLeaf + ToBlocks: root ... leaf.  (Until /repo commit 28b75c7 the leaf block was emitted twice; that
+   was the finding validator-dup-last-block.) *)
+Definition path_to_leaf (t : tnode) : list nat := rev t.
 
 (* the loop of FindPathBetweenBlocks; the stack top is the head of [stack] *)
 Fixpoint search (fuel : nat) (g : cfg) (dst : nat) (visited : list nat) (stack : list tnode) : presult :=
